@@ -1,5 +1,6 @@
 import H2V.Lemmas.ConnCountsPLocal
 import H2V.Lemmas.ConnCountsPIdle
+import H2V.Lemmas.ConnCountsPWitness
 /-
   C19 — finished streams are forgotten and an idle client connection closes itself.
   Property theorems only (lemmas: `H2V/Lemmas/ConnCountsP*.lean`, notes: `ConnCountsPNOTES.md`).
@@ -83,6 +84,72 @@ theorem idle_client_run :
     (idleClient.clientPoll 50).1.codec.io.shutdownCalled = true :=
   idleClient_run
 
+/-- **The bookkeeping returns to the idle values — in every reachable state.**
+    (`Reach`: see `H2V.Props.C05.slots_are_accounted_everywhere`.)  As long as no `assert!` has fired:
+    * the counter of remembered reset streams is exactly the length of `pending_reset_expired`
+      (positive statement for quirk Q2 of ConnNOTES.md, fixed in the real code): when the last
+      remembered stream has expired the counter is 0 again;
+    * when the store is empty (every stream closed, flushed, released), both concurrency counters
+      are 0 — nothing is retained for finished streams;
+    * the store never holds two entries under one key, and a key is never handed out twice
+      (every key in the slab is below `next_key`): a handle that still holds a key cannot be
+      redirected to another stream's entry. -/
+theorem bookkeeping_returns_to_idle {s : Streams} (h : Reach s) (hp : s.panicked = none) :
+    s.counts.numLocalResetStreams = s.recv.pendingResetExpired.length ∧
+    (s.store.slab = [] → s.counts.numSendStreams = 0 ∧ s.counts.numRecvStreams = 0) ∧
+    (s.store.slab.map (·.key)).Nodup ∧ (∀ x ∈ s.store.slab, x.key < s.store.nextKey) := by
+  have hi := h.inv.2 hp
+  refine ⟨hi.reset, ?_, h.inv.1.nodup, h.inv.1.fresh⟩
+  intro he
+  have := hi.sum
+  unfold cntAll at this
+  rw [he] at this
+  simp only [List.countP_nil] at this
+  omega
+
+/-- non-vacuity -/
+example : Reach wS2 ∧ wS2.panicked = none := ⟨wS2_reach, wS2_facts.1⟩
+
+/-- **FINDING (Q3 of ConnNOTES.md, real code, still open): a finished stream can stay in the slab
+    for ever.**  A reachable state without panic (client, `max_concurrent_reset_streams = 0`, an
+    upload larger than the connection window that is reset and whose handles are dropped while it
+    is parked in `pending_capacity`, then a WINDOW_UPDATE) in which the only slab entry is closed,
+    has `ref_count = 0`, is in none of the six queues and not in the id map — and another
+    `poll_complete` leaves it there.  So "`is_released()` ⇒ removed" holds at every
+    `transition_after` (`released_entry_is_removed`) but NOT between operations: the `continue` of
+    `Prioritize::assign_connection_capacity` drops the stream from `pending_capacity` without a
+    `transition`.  (The counters are unaffected: `bookkeeping_returns_to_idle`.) -/
+theorem finished_stream_retained_counterexample :
+    Reach q3g.1 ∧ q3g.1.panicked = none ∧
+    (q3f.1.store.slab.map fun x => (x.id, x.refCount, x.isPendingSendCapacity)) = [(1, 0, true)] ∧
+    q3g.1.store.ids = [] ∧
+    (q3g.1.store.slab.map fun x => (x.id, x.refCount, x.isClosed,
+        x.isPendingSend || x.isPendingSendCapacity || x.isPendingOpen || x.isPendingAccept || x.isPendingWindowUpdate || x.resetAt))
+      = [(1, 0, true, false)] ∧
+    (q3g.1.prio.pendingSend, q3g.1.prio.pendingCapacity, q3g.1.prio.pendingOpen) = ([], [], []) ∧
+    (q3g.1.recv.pendingWindowUpdates, q3g.1.recv.pendingAccept, q3g.1.recv.pendingResetExpired) = ([], [], []) ∧
+    (wPoll q3g).1.store.slab.length = 1 :=
+  ⟨q3_reach, q3_counterexample⟩
+
+/-- **FINDING (Q1 of ConnNOTES.md, real code, still open): a stream is forgotten before its
+    RST_STREAM is written, and then reset a second time through a second slab entry.**  A reachable
+    state without panic (client, `max_concurrent_reset_streams = 0`, both handles of a request
+    dropped while the response is in flight): `transition_after` unlinks the stream from the id
+    map although its implicit RST_STREAM(CANCEL) is still to be generated (`Stream::is_closed()` is
+    already true for `ScheduledLibraryReset` with an empty queue); the response HEADERS is then "for a
+    forgotten stream" (`STREAM_CLOSED`), `Inner::send_reset` inserts a SECOND slab entry with the
+    same stream id, the bogus reset is counted in `num_local_error_reset_streams`, and the peer
+    receives `RST_STREAM(CANCEL)` and `RST_STREAM(STREAM_CLOSED)` for stream 1. -/
+theorem stream_forgotten_too_early_counterexample :
+    Reach q1d.1 ∧ q1d.1.panicked = none ∧
+    q1c.1.store.ids = [] ∧
+    (q1c.1.store.slab.map fun x => (x.id, x.pendingSend.length, x.isPendingSend)) = [(1, 0, true)] ∧
+    (q1d.1.store.slab.filter (·.id == 1)).length = 2 ∧
+    q1d.1.counts.numLocalErrorResetStreams = 1 ∧
+    q1e.2.2.tx.drop 3 = ["R:1:8", "R:1:5"] :=
+  ⟨q1_reach, q1_counterexample.1, q1_counterexample.2.1, q1_counterexample.2.2.1, q1_counterexample.2.2.2.2.1,
+   q1_counterexample.2.2.2.2.2.1, q1_counterexample.2.2.2.2.2.2⟩
+
 #print axioms released_entry_is_removed
 #print axioms pending_reset_entry_kept
 #print axioms pending_reset_entry_kept_popFrame
@@ -90,5 +157,8 @@ theorem idle_client_run :
 #print axioms idle_client_poll_starts_with_goaway
 #print axioms idle_goaway_is_no_error
 #print axioms idle_client_run
+#print axioms bookkeeping_returns_to_idle
+#print axioms finished_stream_retained_counterexample
+#print axioms stream_forgotten_too_early_counterexample
 
 end H2V.Props.C19
